@@ -496,7 +496,7 @@ class Printer:
             return self.var(x[1])
         if k == "paren":
             inner = strip_paren(x)
-            if inner[0] in ("num", "var", "call"):
+            if inner[0] in ("num", "var", "call", "neg", "not", "tern"):
                 return self.e(inner, prec)
             return "(" + self.e(inner, 0) + ")"
         if k == "neg":
@@ -796,7 +796,7 @@ class Translator:
 
     def tree_int(self, t, pr, where):
         if t[0] == "ret":
-            return pr.e(t[1])
+            return pr.e(strip_paren(t[1]))
         if t[0] == "ite":
             return "if %s then %s else %s" % (pr.e(t[1]), paren_if(self.tree_int(t[2], pr, where)), paren_if(self.tree_int(t[3], pr, where)))
         raise TranslateError(where + ": path without integer return value")
@@ -804,7 +804,7 @@ class Translator:
     def tree_out(self, t, var, pr, where, default=None):
         if t[0] == "fall":
             if var in t[1]:
-                return pr.e(t[1][var])
+                return pr.e(strip_paren(t[1][var]))
             if default is not None:
                 return default
             raise TranslateError("%s: output %s not assigned on some path" % (where, var))
@@ -866,6 +866,7 @@ class Translator:
         A("leading `Int` arguments).  `Option Int`: `some k` = raw element `data[k]`, `none` = structural zero or")
         A("`index_out_of_bounds`.  `check_*_diag`: `true` = throws.  C++ `Index` (32-bit int) is modelled by `Int`.")
         A("-/")
+        A("set_option linter.unusedVariables false")
         A("namespace Adept.Engines")
         A("")
         member_order = ["diagonals_static", "pack_offset", "index", "row_offset", "get_row_range", "data_size", "upper_offset",
@@ -973,6 +974,19 @@ class Translator:
         A("end Engine")
         A("")
         A("end Adept.Engines")
+        A("")
+        names = []
+        for ln in self.order:
+            for dn in inst_members.get(ln, []):
+                names.append("Adept.Engines.%s.%s" % (ln, dn))
+        for m in member_order[1:]:
+            for (dn, _, _) in member_shape(m):
+                names.append("Adept.Engines.Engine.%s" % dn)
+        names.append("Adept.Engines.Engine.transpose")
+        A("set_option maxRecDepth 8192")
+        A("/-- `engine_unfold (at h)?`: unfold every definition of this file (the proofs of C17 start with it) -/")
+        A("macro \"engine_unfold\" loc:(Lean.Parser.Tactic.location)? : tactic =>")
+        A("  `(tactic| simp only [" + ",\n    ".join(names) + "] $[$loc]?)")
         return "\n".join(L) + "\n"
 
     def struct_label(self, s):
